@@ -27,8 +27,9 @@ RULE = (
     "extended stretch of activity (an event was open when the stop arrived)."
 )
 MUST_HIT = ["stop_before_first_read", "stop_after_last_read_before_drain", "stop_while_detection_open",
-            "stop_mid_stream", "stop_with_stream_saver", "stop_after_everything_finished", "endless_source"]
-ASSUMPTIONS = c12.ASSUMPTIONS + ["the stop is delivered through stop_all() from the main thread (the path the CLI's KeyboardInterrupt handler takes)"]
+            "stop_mid_stream", "stop_with_stream_saver", "stop_after_everything_finished", "endless_source",
+            "stop_requested_from_a_helper_thread"]
+ASSUMPTIONS = c12.ASSUMPTIONS + ["the stop is delivered through stop_all() from the main thread (the path the CLI's KeyboardInterrupt handler takes); two free-running members call it from a helper thread"]
 BOUNDS = {"quick": dict(n=200, maxwin=24), "thorough": dict(n=1200, maxwin=40)}
 
 
@@ -138,9 +139,30 @@ def check_sigint(case, rec):
             pass
 
 
+def check_free_stop(case, rec):
+    """Free-running threads, endless source, the stop requested from a helper thread after a few milliseconds."""
+    run = pipeline.run_pipeline(case, scheduled=False, stop_step=case["free_stop"], endless=True)
+    try:
+        if getattr(run, "stop_error", None) is not None:
+            raise Violation(f"stop_all() called from a thread other than the main one raised {run.stop_error!r}", case)
+        if not getattr(run, "stop_all_returned", False):
+            raise Violation("stop_all() did not return", case)
+        if run.alive:
+            raise Violation(f"threads still alive after the stop: {run.alive}", case)
+        R = list(run.src.handed)
+        exp = pipeline.expected_detections(b"".join(R), case, run.thr)
+        c12.judge_observers(run, case, exp)
+        c12.judge_files(run, case, exp, R)
+        rec.note(case, True, {"stop_requested_from_a_helper_thread"}, out={"blocks_read": len(R), "detections": len(exp)})
+    finally:
+        pipeline.cleanup(run)
+
+
 def check_case(case, rec):
     if case.get("t") == "sigint":
         return check_sigint(case, rec)
+    if case.get("free_stop") is not None:
+        return check_free_stop(case, rec)
     base = pipeline.run_pipeline(case, scheduled=True)
     try:
         c12.judge_threads(base, case)
@@ -199,6 +221,14 @@ def explicit_cases():
                     "choices": [3, 0, 4, 1, 2] * 30, "stop": f, "endless": f in (0.3, 0.9, 1.1)})
         out.append({"audio": a, "win": [1, 3, 0, True, False], "saver": None, "observers": ["rec", "joiner"],
                     "join_sil": [2, 0], "choices": [], "stop": f})
+    out.append({"audio": a, "win": [2, 6, 1, False, False], "saver": {"cache": 0.04}, "observers": ["rec", "print"], "choices": [],
+                "free_stop": 0.02, "stop_from_thread": True})
+    out.append({"audio": a, "win": [1, 3, 0, False, False], "saver": None, "observers": ["rec", "rec"], "choices": [],
+                "free_stop": 0.0, "stop_from_thread": True})
+    out.append({"audio": a, "win": [2, 6, 1, False, False], "saver": {"cache": 0.04, "ext": "", "fmt": "WAV"}, "observers": ["rec"],
+                "choices": [3, 0, 1, 2] * 20, "stop": 0.5})
+    out.append({"audio": a, "win": [2, 6, 1, False, False], "saver": {"cache": 0.04, "ext": ".wav", "fmt": "Wav"}, "observers": ["rec"],
+                "choices": [3, 0, 1, 2] * 20, "stop": 0.8, "endless": True})
     return out
 
 
